@@ -398,7 +398,13 @@ fn run_stepwise(enabled: bool, events: &[Ev], snap_at: usize, fault_stage: bool)
         out.steps += 1;
         out.sent += txs.iter().map(|t| t.drain().len() as u64).sum::<u64>();
         if snapshot.is_none() {
-            continue; // before the snapshot: nothing to replicate yet
+            // before the snapshot: nothing to replicate yet - but a fatal delivery error ends the run there as
+            // it would end a runner (everything the generator assumes about later events presumes the engine
+            // kept running normally)
+            if tick.event.is_terminal() {
+                break;
+            }
+            continue;
         }
         out.checks += 3;
         check_tick(&tick, last_seq + 1, &ee, idx)?;
